@@ -50,7 +50,10 @@ def remap_curie_prefixes(converter: Converter, remapping: Mapping[str, str]) -> 
         [record.model_copy(deep=True) for record in converter.records], strict=False
     )
     ordering = _order_curie_remapping(converter, remapping)
-    intersection = set(remapping).intersection(remapping.values())
+    # old prefixes that an applicable pair hands over to another record as its new prefix
+    handed_over = {
+        new_prefix for old, new_prefix in remapping.items() if old in converter.synonym_to_prefix
+    }.intersection(remapping)
     records = {r.prefix: r for r in converter.records}
 
     modified_records = []
@@ -74,9 +77,9 @@ def remap_curie_prefixes(converter: Converter, remapping: Mapping[str, str]) -> 
                 new_prefix,
                 new_record,
             )
-        elif old in intersection:
+        elif old in handed_over:
             record.prefix_synonyms = sorted(
-                set(record.prefix_synonyms).difference({old, new_prefix})
+                set(record.prefix_synonyms).union({record.prefix}).difference({old, new_prefix})
             )
             record.prefix = new_prefix
         else:
